@@ -481,3 +481,56 @@ func UpArgs(p *ssa.Parameter) []ssa.Value { return upArgs(p) }
 func LiftPred(pred func(ssa.Instruction) bool) func(ssa.Instruction) bool {
 	return liftPred(pred, LiftDepth)
 }
+
+// NewOriginWalk visits v and the values it is computed from within its function (operands of
+// phis, conversions, binary operations, loads' addresses, extracts), breadth-first and
+// intra-procedurally, until visit returns false. A light-weight alternative to Slicer.Walk for
+// "is this value built from X" questions on small expressions.
+func NewOriginWalk(v ssa.Value, visit func(ssa.Value) bool) {
+	seen := map[ssa.Value]bool{}
+	work := []ssa.Value{v}
+	for len(work) > 0 && len(seen) < 200 {
+		x := work[0]
+		work = work[1:]
+		if x == nil || seen[x] {
+			continue
+		}
+		seen[x] = true
+		if !visit(x) {
+			return
+		}
+		switch n := x.(type) {
+		case *ssa.Phi:
+			work = append(work, n.Edges...)
+		case *ssa.BinOp:
+			work = append(work, n.X, n.Y)
+		case *ssa.UnOp:
+			work = append(work, n.X)
+		case *ssa.Convert:
+			work = append(work, n.X)
+		case *ssa.ChangeType:
+			work = append(work, n.X)
+		case *ssa.Extract:
+			work = append(work, n.Tuple)
+		case *ssa.Slice:
+			work = append(work, n.X)
+		case *ssa.Index:
+			work = append(work, n.X)
+		case *ssa.MakeInterface:
+			work = append(work, n.X)
+		}
+	}
+}
+
+// StoresIn returns the Store instructions of fn.
+func StoresIn(fn *ssa.Function) []*ssa.Store {
+	var out []*ssa.Store
+	for _, b := range fn.Blocks {
+		for _, ins := range b.Instrs {
+			if st, ok := ins.(*ssa.Store); ok {
+				out = append(out, st)
+			}
+		}
+	}
+	return out
+}
